@@ -140,7 +140,7 @@ theorem parseInitialState_canonical (ty : String) (c : CreateReq) (canon : List 
       rw [transformValue_request, hre, Option.map_some, hc]
     refine ⟨c', n, hparse, hd, hty, ?_, htv⟩
     unfold parseInitialState
-    simp only [b64_decode_encode_str, utf8_roundtrip, Option.bind_some, String.toList_ofList, hparse, hd, hty, htv, htyc, if_true]
+    simp only [b64_decode_strict_encode_str, utf8_roundtrip, Option.bind_some, String.toList_ofList, hparse, hd, hty, htv, htyc, if_true]
 
 theorem ofString_create (s : String) (h : OpType.ofString? s = some .create) : s = "create" := by
   unfold OpType.ofString? at h
